@@ -1040,10 +1040,44 @@ def make_cases(pid, tier, seed):
         c2["kwargs"] = {}
         c2["tags"] = list(c.get("tags") or []) + ["kw_by_position"]
         extra.append(c2)
+    # every boolean / small-integer option NumPy's signature offers, toggled away from its default, on the first
+    # configurations of each function: a rule that accepts an option but ignores it must not go unnoticed
+    SKIP_OPT = {"out", "subok", "copy", "order", "casting", "dtype", "where", "like", "signature", "extobj", "optimize", "overwrite_input", "check_finite", "assume_unique"}
+    toggles = []
+    seen_fn = {}
+    for c in out:
+        if c["form"] != "function" or c["ns"] not in nsmods or c.get("dup") or c.get("layout") or c.get("joint") or c.get("fresh_out") or c.get("tags"):
+            continue
+        key = (c["ns"], c["prim"])
+        seen_fn[key] = seen_fn.get(key, 0) + 1
+        if seen_fn[key] > 2:
+            continue
+        if key not in sigcache:
+            try:
+                sigcache[key] = list(inspect.signature(getattr(nsmods[c["ns"]], c["prim"])).parameters.values())
+            except (TypeError, ValueError, AttributeError):
+                sigcache[key] = None
+        params = sigcache[key]
+        if not params:
+            continue
+        for p_ in params[len(c["args"]):]:
+            if p_.name in c["kwargs"] or p_.name in SKIP_OPT or p_.kind not in (p_.POSITIONAL_OR_KEYWORD, p_.KEYWORD_ONLY):
+                continue
+            if isinstance(p_.default, bool):
+                vals = [not p_.default]
+            elif isinstance(p_.default, int) and not isinstance(p_.default, bool) and -2 <= p_.default <= 2:
+                vals = [p_.default + 1]
+            else:
+                continue
+            for v_ in vals:
+                c2 = dict(c)
+                c2["kwargs"] = dict(c["kwargs"], **{p_.name: v_})
+                c2["tags"] = ["option_toggle"]
+                toggles.append(c2)
     if mode in ("rev", "fwd", "cplx"):
-        out = out + extra
+        out = out + extra + toggles
     elif mode in ("pair", "struct", "order2"):
-        out = out + extra[::3]
+        out = out + extra[::3] + toggles[::3]
     if mode == "cplx":
         # gauge-dependent outputs (eigenvector / singular-vector phases) are not functions of the input
         # alone for complex data: only the gauge-free selections are judged
